@@ -6,6 +6,7 @@ Tier F:       the unfold entry points do not write their argument (frame obligat
 Tier B:       generated parts in a small repeat grammar (simple and nested repeats, 1st/2nd/3rd endings incl. "1,2", da capo,
                fine) x update_ids x policies against an independent play-order oracle (bounded).
 """
+from fractions import Fraction
 import itertools
 
 from pyv.contracts import Contract, Int, Obj, Enum, Spec
@@ -355,6 +356,71 @@ def bounded(b):
             for v in variants:
                 left = [type(o).__name__ for cls in (sc.Repeat, sc.Ending, sc.DaCapo, sc.DalSegno, sc.ToCoda) for o in v.iter_all(cls)]
                 b.case("unfold/no_repeat_marks_left", not left, case, "unfolded part still contains %r" % left, nontrivial=nontriv)
+    _score_inputs(b)
+    _divisions_inside_repeat(b)
+
+
+def _score_inputs(b):
+    """a Score of two parts with the same repeat structure and different notes: each part of the result is the unfolding of THAT part"""
+    sc = _sc()
+    from gen import scores as G
+    for name, kw in (("simple_repeat", dict(n=3, repeats=[(0, 1)])), ("volta_1_2", dict(n=4, repeats=[(0, 1)], endings=[("1", 1, 1), ("2", 2, 2)]))):
+        for fn_name in ("unfold_part_maximal", "unfold_part_minimal"):
+            case = {"shape": name, "argument": "Score of two parts", "function": fn_name}
+            pa, pb = build_repeat_part(**kw), build_repeat_part(**kw)
+            pb.id = "Q"
+            for nt in pb.iter_all(sc.Note):
+                nt.octave -= 2
+                nt.id = "q" + nt.id
+            fn = getattr(sc, fn_name)
+            alone = [fn(build_repeat_part(**kw)), None]
+            pb2 = build_repeat_part(**kw)
+            for nt in pb2.iter_all(sc.Note):
+                nt.octave -= 2
+                nt.id = "q" + nt.id
+            alone[1] = fn(pb2)
+            score = G.simple_score([pa, pb])
+            ok, res = b.guard("unfold/score_no_exception", case, lambda: fn(score))
+            if not ok:
+                continue
+            parts = list(res.parts) if hasattr(res, "parts") else list(res)
+            sig = lambda p: [(x.start.t, x.end.t, x.step, x.octave) for x in sorted(p.iter_all(sc.Note), key=lambda x: (x.start.t, x.octave))]
+            b.case("unfold/each_part_of_a_score_is_unfolded_from_its_own_notes", len(parts) == 2 and [sig(p) for p in parts] == [sig(a) for a in alone], case,
+                   "parts of the unfolded score hold %r, the parts unfolded alone %r" % ([sig(p)[:3] for p in parts], [sig(a)[:3] for a in alone]))
+
+
+def _divisions_inside_repeat(b):
+    """divisions set before a repeated section and changed inside it: every copy keeps the duration IN QUARTERS of its original"""
+    sc = _sc()
+    from gen import oracles as O
+    for name, q0, q1, spans, rep in (("four_then_eight_divisions_changed_inside_the_repeat", 4, 8, [(0, 16), (16, 32), (32, 64), (64, 96)], (16, 64)),
+                                     ("six_then_four_divisions_changed_inside_the_repeat", 6, 4, [(0, 24), (24, 48), (48, 64), (64, 80)], (24, 64))):
+        def mk():
+            p = sc.Part("P", quarter_duration=q0)
+            p.set_quarter_duration(spans[2][0], q1)
+            p.add(sc.TimeSignature(4, 4), 0)
+            for i, (s_, e_) in enumerate(spans):
+                p.add(sc.Measure(number=i + 1), s_, e_)
+                p.add(sc.Note("CDEF"[i], 4, id="n%d" % i, voice=1, staff=1), s_, e_)
+            p.add(sc.Repeat(), rep[0], rep[1])
+            return p
+        for fn_name in ("unfold_part_maximal", "unfold_part_minimal"):
+            case = {"shape": name, "function": fn_name}
+            part = mk()
+            orig_q = {n.step: O._integral(part, n.start.t, n.end.t, "quarter") for n in part.iter_all(sc.Note)}
+            ok, un = b.guard("unfold/maximal_no_exception", case, lambda: getattr(sc, fn_name)(part))
+            if not ok:
+                continue
+            bad = None
+            pos = Fraction(0)
+            for n in sorted(un.iter_all(sc.Note), key=lambda x: x.start.t):
+                dq = O._integral(un, n.start.t, n.end.t, "quarter")
+                if dq != orig_q[n.step]:
+                    bad = bad or "copy %s lasts %s quarters, its original %s" % (n.id, dq, orig_q[n.step])
+                if O._integral(un, un.first_point.t, n.start.t, "quarter") != pos:
+                    bad = bad or "copy %s starts %s quarters into the part, the visited segments before it last %s" % (n.id, O._integral(un, un.first_point.t, n.start.t, "quarter"), pos)
+                pos += orig_q[n.step]
+            b.case("unfold/copies_keep_their_duration_in_quarters_under_the_divisions_of_their_segment", bad is None, case, bad or "")
 
 
 def _same_content(a, b):
